@@ -14,8 +14,14 @@ binding: spec -> code: TLC (EmitSpec) prints every abstract request of the domai
              (a) to the real DispatchingRequestHandler constructed on an in-memory connection (read side counts calls
                  and raises a watchdog exception after 40 reads at EOF: a spin is observed, never suffered) whose
                  server object carries the real PathElementRegistry of a real provider / consumer (verif.pair), and
-             (b) to MessageConverterMiddleware.do_post of the real provider and the real consumer event sink,
+             (b) to MessageConverterMiddleware.do_post of the real provider and the real consumer event sink
+                 (consumer with the synchronous RequestDispatcher and, for odd concretisation numbers, with its
+                 default DispatchKeyRegistryDeferred),
            each in a thread with a hard timeout, under a socket guard and an lxml resolver spy.
+           quick: the model is checked for one request type per class of request types, 2000 abstract requests
+           (stratified sample, one concretisation each) are executed; thorough: all request types are model-checked,
+           every abstract request is executed with three concretisations (in worker processes, one real
+           provider/consumer pair per process).
          code -> spec: status, body class (proper response / well-formed SOAP fault / empty / text), escaped exception,
            spin, unbounded read, entity text in a parsed value, resolver / socket use, MDIB + subscription table
            projection before/after are judged by TLC (PipelineTrace).
@@ -28,8 +34,8 @@ import json
 import os
 import random
 import time
-from concurrent.futures import ProcessPoolExecutor
 import multiprocessing
+from concurrent.futures import ProcessPoolExecutor
 
 from verif import c13_helpers as H
 from verif import tracecheck
@@ -104,7 +110,7 @@ def _run_batch(args):
     for idx, case, v in batch:
         tpl = templates[case['target']]
         conc = H.concretise(tpl, case, v, seed)
-        out.append((idx, v, ex.execute(tpl, case, conc)))
+        out.append((idx, v, ex.execute(tpl, case, conc, v)))
     return out, ex.rebuilds
 
 
@@ -132,13 +138,15 @@ def _sample(cases, n, rng):
         need.add(('te', r['target'], r['envelope']))
         need.add(('tx', r['target'], r['xml']))
         need.add(('fc', r['framing'], r['coding']))
+        need.add(('mp', r['method'], r['path']))
     chosen = []
     rest = []
     for i in order:
         r = cases[i]['req']
         keys = {(r['via'], f, r[f]) for f in FIELDS} | {('te', r['target'], r['envelope']),
                                                       ('tx', r['target'], r['xml']),
-                                                      ('fc', r['framing'], r['coding'])}
+                                                      ('fc', r['framing'], r['coding']),
+                                                      ('mp', r['method'], r['path'])}
         if keys & need:
             need -= keys
             chosen.append(i)
@@ -189,6 +197,26 @@ def _culprit(req, clause, stage, actual):
     return 'none', 'valid'
 
 
+NEUTRAL = {'path': ('valid',), 'framing': ('cl_exact', 'na'), 'coding': ('none', 'na'), 'xml': ('wf', 'na'),
+           'envelope': ('valid', 'na')}
+
+
+def _single_fault_stats(chosen, results):
+    """Outcome kinds of the requests that deviate from the valid request in exactly one class."""
+    stats = {}
+    for (idx, _v, actual) in results:
+        req = chosen[idx]['req']
+        off = [f for f, ok in NEUTRAL.items() if req[f] not in ok]
+        if len(off) > 1:
+            continue
+        key = f'{req["via"]}/{req["method"]}:' + (f'{off[0]}={req[off[0]]}' if off else 'valid')
+        kind = ('escape:' + actual['escaped'] if actual['escaped'] != 'none' else
+                'spin' if actual['spin'] or actual['timeout'] else f'{actual["status"]}/{actual["body"]}')
+        d = stats.setdefault(key, {})
+        d[kind] = d.get(kind, 0) + 1
+    return {k: dict(sorted(v.items())) for k, v in sorted(stats.items())}
+
+
 def _replay_obj(templates, case, v, seed, actual):
     tpl = templates[case['target']]
     conc = H.concretise(tpl, case, v, seed)
@@ -201,7 +229,57 @@ def _replay_obj(templates, case, v, seed, actual):
                    'MessageConverterMiddleware.do_post(headers, path, peer, xml)'}
 
 
+def _judge(run, templates, chosen, results):
+    """code -> spec: TLC (PipelineTrace) judges the recorded final states; violations go to run.violation."""
+    all_targets = H.PROVIDER_TARGETS + H.CONSUMER_TARGETS + H.GET_TARGETS
+    traces = []
+    for idx, _v, actual in results:
+        rec = {'case': chosen[idx]['req'], 'actual': {k: actual[k] for k in TLC_FIELDS}}
+        traces.append([rec])
+    consts = dict(_constants(templates, all_targets), Part='"trace"', EmitOnly='FALSE')
+    cfg = _write_cfg('_gen_c13_trace.cfg', 'TraceSpec', consts, 'POSTCONDITION AllConsumed\n')
+    n_tlc = len(run.tlc)
+    chunk = run.pick(4000, 12000)
+    rejects = tracecheck.validate(run, 'PipelineTrace', cfg, traces, chunk=chunk, timeout=1500)
+    notes, note_examples = {}, {}
+    for k, r in enumerate(run.tlc[n_tlc:]):
+        for val in printed_values(r.stdout, 'NOTE'):
+            notes[val[3]] = notes.get(val[3], 0) + 1
+            idx, v, actual = results[k * chunk + val[1] - 1]
+            note_examples.setdefault(val[3], {'case': chosen[idx]['req'], 'variant': v,
+                                              'status': actual['status'], 'body': actual['body']})
+    run.note('informational_clauses_not_holding', notes)
+    run.note('informational_examples', note_examples)
+    for (ti, _li, clause_stage) in tracecheck.first_rejects(rejects):
+        idx, v, actual = results[ti]
+        req = chosen[idx]['req']
+        clause, _, stage = clause_stage.partition('@')
+        field, cls = _culprit(req, clause, stage, actual)
+        endpoint = templates[req['target']].endpoint
+        descr = {'check': 'pipeline', 'clause': clause, 'method': req['method'], 'field': field, 'class': cls}
+        if field not in ('xml', 'envelope'):
+            descr['via'] = req['via']         # parsing / validation / dispatch are the same code for both entries
+        if clause == 'NoEscape':
+            descr['exc'] = actual['escaped']
+            descr['where'] = actual['where']
+        if clause in ('Outcome', 'OutcomeAllowed'):
+            descr['got'] = f'{actual["status"] // 100}xx/{actual["body"]}'
+            descr['allowed'] = '|'.join(sorted(chosen[idx]['allowed']))
+        if field in ('envelope', 'target', 'none') or \
+                (field == 'path' and cls in ('valid', 'unknown_service', 'extra_segments')):
+            descr['endpoint'] = endpoint      # behind the HTTP handler the two endpoints run different code
+        if field in ('envelope', 'target', 'none') or clause == 'RejectIsNoop':
+            descr['target'] = req['target']
+        what = (f'{req["via"]} {endpoint} {req["target"]}: {field}={cls} -> clause {clause} fails: status='
+                f'{actual["status"]} body={actual["body"]} escaped={actual["escaped"]} at {actual["where"]} '
+                f'spin={actual["spin"]} timeout={actual["timeout"]} unbounded_read={actual["unbounded_read"]} '
+                f'expanded={actual["expanded"]} state_same={actual["state_same"]} ({actual["detail"][:160]})')
+        run.violation(descr, what, _replay_obj(templates, req, v, run.seed, actual))
+    return rejects
+
+
 def _replay(run, replay_path):
+    """Re-run the concretisation stored in a replay file and let TLC judge it again."""
     with open(replay_path) as f:
         obj = json.load(f)['replay']
     ex = H.Executor()
@@ -211,17 +289,33 @@ def _replay(run, replay_path):
         case, v = obj['case'], obj['variant']
         tpl = templates[case['target']]
         conc = H.concretise(tpl, case, v, obj['seed'])
-        actual = ex.execute(tpl, case, conc)
-        print('REPLAY', json.dumps({'case': case, 'variant': v, 'actual': actual}, indent=1))
+        actual = ex.execute(tpl, case, conc, v)
     finally:
         ex.close()
-    return actual
+    print('REPLAY', json.dumps({'case': case, 'variant': v, 'actual': actual}, indent=1))
+    run.seed = obj['seed']
+    consts = dict(_constants(templates, [case['target']]), Part='"all"', EmitOnly='TRUE')
+    cfg = _write_cfg('_gen_c13_emit.cfg', 'EmitSpec', consts)
+    res = run_tlc('Pipeline', cfg, workers=1, timeout=600)
+    run.add_tlc(res)
+    allowed = [c['allowed'] for c in json_lines(res.stdout, 'CASE') if c['req'] == case]
+    chosen = [{'req': case, 'allowed': allowed[0] if allowed else []}]
+    _judge(run, templates, chosen, [(0, v, actual)])
+    run.evaluations += 1
+    _cleanup()
+
+
+def _cleanup():
+    for name in os.listdir(SPEC_DIR):
+        if name.startswith('_gen_c13_'):
+            os.remove(os.path.join(SPEC_DIR, name))
 
 
 def check(run, replay_path=None):
     t_start = time.time()
     if replay_path:
         _replay(run, replay_path)
+        return
     # ---- 0. the real system, one valid request per request type, baseline responses
     ex = H.Executor()
     try:
@@ -287,19 +381,7 @@ def check(run, replay_path=None):
 
     # ---- 4. code -> spec: TLC judges the recorded final states
     results.sort(key=lambda r: (r[0], r[1]))
-    traces = []
-    for idx, v, actual in results:
-        rec = {'case': chosen[idx]['req'], 'actual': {k: actual[k] for k in TLC_FIELDS}}
-        traces.append([rec])
-    consts = dict(_constants(templates, all_targets), Part='"trace"', EmitOnly='FALSE')
-    cfg = _write_cfg('_gen_c13_trace.cfg', 'TraceSpec', consts, 'POSTCONDITION AllConsumed\n')
-    n_tlc = len(run.tlc)
-    rejects = tracecheck.validate(run, 'PipelineTrace', cfg, traces, chunk=run.pick(4000, 12000), timeout=1500)
-    notes = {}
-    for r in run.tlc[n_tlc:]:
-        for val in printed_values(r.stdout, 'NOTE'):
-            notes[val[3]] = notes.get(val[3], 0) + 1
-    run.note('informational_clauses_not_holding', notes)
+    _judge(run, templates, chosen, results)
 
     # ---- 5. verdicts, statistics
     outcome_stats = {}
@@ -314,30 +396,7 @@ def check(run, replay_path=None):
         outcome_stats[key] = outcome_stats.get(key, 0) + 1
         run.distinct_traces.add((tuple(req[f] for f in FIELDS), kind))
     run.note('outcomes', dict(sorted(outcome_stats.items())))
-    for (ti, _li, clause_stage) in tracecheck.first_rejects(rejects):
-        idx, v, actual = results[ti]
-        req = chosen[idx]['req']
-        clause, _, stage = clause_stage.partition('@')
-        field, cls = _culprit(req, clause, stage, actual)
-        endpoint = templates[req['target']].endpoint
-        descr = {'check': 'pipeline', 'clause': clause, 'via': req['via'], 'method': req['method'],
-                 'field': field, 'class': cls}
-        if clause == 'NoEscape':
-            descr['exc'] = actual['escaped']
-            descr['where'] = actual['where']
-        if clause in ('Outcome', 'OutcomeAllowed'):
-            descr['got'] = f'{actual["status"] // 100}xx/{actual["body"]}'
-            descr['allowed'] = '|'.join(sorted(chosen[idx]['allowed']))
-        if field in ('xml', 'envelope', 'target', 'none') or \
-                (field == 'path' and cls in ('valid', 'unknown_service', 'extra_segments')):
-            descr['endpoint'] = endpoint      # behind the HTTP handler the two endpoints run different code
-        if field in ('envelope', 'target', 'none') or clause == 'RejectIsNoop':
-            descr['target'] = req['target']
-        what = (f'{req["via"]} {endpoint} {req["target"]}: {field}={cls} -> clause {clause} fails: status='
-                f'{actual["status"]} body={actual["body"]} escaped={actual["escaped"]} at {actual["where"]} '
-                f'spin={actual["spin"]} timeout={actual["timeout"]} unbounded_read={actual["unbounded_read"]} '
-                f'expanded={actual["expanded"]} state_same={actual["state_same"]} ({actual["detail"][:160]})')
-        run.violation(descr, what, _replay_obj(templates, req, v, run.seed, actual))
+    run.note('outcomes_of_single_fault_requests', _single_fault_stats(chosen, results))
     # samples: one accepted, one faulted, one HTTP-level request
     for want in ('proper', 'fault'):
         for (idx, v, actual) in results:
@@ -345,9 +404,11 @@ def check(run, replay_path=None):
                 run.sample({'case': chosen[idx]['req'], 'variant': v,
                             'actual': {k: actual[k] for k in TLC_FIELDS}})
                 break
-    for name in os.listdir(SPEC_DIR):
-        if name.startswith('_gen_c13_'):
-            os.remove(os.path.join(SPEC_DIR, name))
+    dispatch = {}
+    for (_idx, _v, actual) in results:
+        dispatch[actual['dispatch']] = dispatch.get(actual['dispatch'], 0) + 1
+    run.note('consumer_dispatch_variants', dispatch)
+    _cleanup()
     run.note('wall_execution_s', round(time.time() - t_start, 1))
     run.assumptions += [
         'arbitrary bytes are represented by the enumerated classes only (no byte-level fuzzing)',
@@ -358,7 +419,13 @@ def check(run, replay_path=None):
         'SOAP fault',
         'combinations in which an HTTP-level class makes the body unreachable are enumerated with the valid document '
         'only',
-        'housekeeping threads of the subscription managers are stopped (no asynchronous expiry while a request is '
-        'judged); operations are awaited (operation queue idle) before the state is projected',
+        'autonomous activity is switched off while requests are judged: housekeeping threads of the subscription '
+        'managers, the periodic alert-system self check and the invocation-timeout follow-up of the tutorial role '
+        'provider; operations are awaited (operation queue idle, deferred consumer queue flushed) before the state '
+        'is projected',
+        'truncation is modelled as end of stream (peer closed its sending side); a silent peer that keeps the '
+        'connection open is outside the model (the server sets no socket timeout)',
         'SystemErrorReport and the periodic reports other than PeriodicMetricReport are not driven',
+        'GetContainmentTree/GetDescriptor are answered "not implemented" by the provider: only GetContainmentTree is '
+        'driven, its proper outcome is that fault',
     ]
